@@ -1050,3 +1050,44 @@ def np_ravel(eng, st, args, kwargs):
         yield new_ref(st, ArrV((mul(a.shape[0], w),), lambda t, a=a, w=w: a.at(floordiv(t, w), mod(t, w)), a.dtype)), st
         return
     raise OutOfSubset('np.ravel of this shape')
+
+
+@lib('numpy.searchsorted')
+def np_searchsorted(eng, st, args, kwargs):
+    """np.searchsorted(a, v, side) for a non-decreasing 1-D array a: for each value the position p with
+    a[k] < v for k < p and a[k] >= v for k >= p (side='left'; '<=' / '>' for side='right').  Sortedness of `a` is an obligation."""
+    a = arr_of(eng, st, args[0])
+    side = kwargs.get('side', args[2] if len(args) > 2 else 'left')
+    if a is None or a.ndim != 1 or side not in ('left', 'right'):
+        raise OutOfSubset('np.searchsorted outside the modelled form')
+    n = a.shape[0]
+    k = z3.Int(fresh_name('ss'))
+    eng.oblige('safe', 'searchsorted-sorted', st, z3.ForAll([k], z3.Implies(z3.And(0 <= k, k + 1 < to_z3(n)), to_z3(le(a.at(k), a.at(k + 1))))))
+    va = arr_of(eng, st, args[1])
+    before = (lambda x, v: lt(x, v)) if side == 'left' else (lambda x, v: le(x, v))
+
+    def position(v, tag):
+        if isinstance(n, int) and concrete(v) is not None and all(concrete(a.at(t)) is not None for t in range(n)):
+            return len([t for t in range(n) if (concrete(a.at(t)) < concrete(v) if side == 'left' else concrete(a.at(t)) <= concrete(v))])
+        p = z3.Int(fresh_name('pos' + tag))
+        st.assume(and_(0 <= p, p <= to_z3(n)))
+        st.assume(z3.ForAll([k], z3.Implies(z3.And(0 <= k, k < to_z3(n)), z3.And(z3.Implies(k < p, to_z3(before(a.at(k), v))),
+                                                                                    z3.Implies(k >= p, z3.Not(to_z3(before(a.at(k), v))))))))
+        return p
+    if va is None:
+        yield position(to_num(args[1]), ''), st
+        return
+    if va.ndim != 1:
+        raise OutOfSubset('np.searchsorted of a non 1-D value array')
+    m = va.shape[0]
+    if isinstance(m, int):
+        cells = [position(va.at(t), str(t)) for t in range(m)]
+        yield new_ref(st, ArrV((m,), lambda i, cells=cells: eng.select(cells, i), 'int')), st
+        return
+    P = z3.Function(fresh_name('sspos'), z3.IntSort(), z3.IntSort())
+    j = z3.Int(fresh_name('sj'))
+    st.assume(z3.ForAll([j], z3.Implies(z3.And(0 <= j, j < to_z3(m)), z3.And(0 <= P(j), P(j) <= to_z3(n))), patterns=[P(j)]))
+    st.assume(z3.ForAll([j, k], z3.Implies(z3.And(0 <= j, j < to_z3(m), 0 <= k, k < to_z3(n)),
+                                           z3.And(z3.Implies(k < P(j), to_z3(before(a.at(k), va.at(j)))),
+                                                  z3.Implies(k >= P(j), z3.Not(to_z3(before(a.at(k), va.at(j)))))))))
+    yield new_ref(st, ArrV((m,), lambda i, P=P: P(to_z3(i)), 'int')), st
